@@ -25,9 +25,10 @@ CONSTANTS
   MaxLeaf, MaxNode, NH,   \* bounds: leaves, nodes in total, handles
   Depth,       \* behaviours are printed when hist reaches this length
   Acts,        \* enabled action kinds, subset of AllActs
+  LeafProps,   \* subset of {0,1}: may leaves carry vertex properties
   Emit         \* TRUE: print behaviours (generation); FALSE: model checking only
 
-AllActs == {"Leaf","Bool","Batch","Xf","Copy","Assign","Drop","Force","Same","Split","Plane","BoolAssign"}
+AllActs == {"Leaf","Bool","Batch","Xf","Copy","Assign","Drop","Force","Same","Split","Plane","BoolAssign","XfAssign"}
 
 VARIABLES
   nodes,   \* Seq of node records; children always have smaller index
@@ -70,8 +71,9 @@ AddNode(nd, rec) ==
 
 Leaf == /\ kind = "Leaf" /\ kind' = "" /\ Room /\ NLeaves < MaxLeaf
         /\ \E b \in LeafBoxes :
+             \E p \in LeafProps :   \* p = 1: the leaf carries vertex properties
              AddNode([k |-> "leaf", box |-> b],
-                     [a |-> "Leaf", box |-> <<b[1][1],b[1][2],b[1][3],b[2][1],b[2][2],b[2][3]>>])
+                     [a |-> "Leaf", p |-> p, box |-> <<b[1][1],b[1][2],b[1][3],b[2][1],b[2][2],b[2][3]>>])
 
 Bool == /\ kind = "Bool" /\ kind' = "" /\ Room
         /\ \E x, y \in Live, op \in OpNames :
@@ -99,6 +101,15 @@ Xf == /\ kind = "Xf" /\ kind' = "" /\ Room
            /\ InWindow(ApCells(Gen(g), Den(hnd[x])))
            /\ AddNode([k |-> "xf", g |-> g, ch |-> <<hnd[x]>>],
                       [a |-> "Xf", x |-> x, g |-> g])
+
+(* h = h.Transform(g): the old node stays referenced only by the new one     *)
+XfAssign == /\ kind = "XfAssign" /\ kind' = "" /\ Len(nodes) < MaxNode
+      /\ \E x \in Live, g \in GenNames :
+           /\ InWindow(ApCells(Gen(g), Den(hnd[x])))
+           /\ nodes' = Append(nodes, [k |-> "xf", g |-> g, ch |-> <<hnd[x]>>])
+           /\ hnd' = [hnd EXCEPT ![x] = Len(nodes) + 1]
+           /\ seen' = [seen EXCEPT ![x] = <<>>]
+           /\ hist' = Log(hist, [a |-> "XfAssign", x |-> x, g |-> g])
 
 (* derivations that must not change the solid: Simplify, AsOriginal,        *)
 (* Refine(2), SetTolerance(small), CalculateNormals, re-import of export    *)
@@ -180,6 +191,7 @@ Can(k) ==
     [] k = "BoolAssign" -> Ready /\ Len(nodes) < MaxNode
     [] k = "Batch"      -> Ready /\ Room
     [] k = "Xf"         -> Ready /\ Room /\ \E x \in Live, g \in GenNames : InWindow(ApCells(Gen(g), Den(hnd[x])))
+    [] k = "XfAssign"   -> Ready /\ Len(nodes) < MaxNode /\ \E x \in Live, g \in GenNames : InWindow(ApCells(Gen(g), Den(hnd[x])))
     [] k = "Same"       -> Ready /\ Room
     [] k = "Split"      -> Ready /\ Len(nodes) + 2 <= MaxNode /\ Cardinality(Free) >= 2
     [] k = "Plane"      -> Ready /\ Len(nodes) + 2 <= MaxNode /\ Cardinality(Free) >= 2
@@ -196,7 +208,7 @@ Finish == /\ kind = "" /\ Len(hist) = Depth
           /\ kind' = "done"
           /\ UNCHANGED <<nodes, hnd, seen, hist>>
 
-Next == Pick \/ Finish \/ Leaf \/ Bool \/ BoolAssign \/ Batch \/ Xf \/ Same \/ Split \/ Plane
+Next == Pick \/ Finish \/ Leaf \/ Bool \/ BoolAssign \/ Batch \/ Xf \/ XfAssign \/ Same \/ Split \/ Plane
         \/ Copy \/ Assign \/ Drop \/ Force
 Spec == Init /\ [][Next]_vars
 
